@@ -461,3 +461,21 @@ Proof.
   split; [exact ex_xg_dom|]. split; [exists [5; 3]%Z, [(5, 3)]%Z, ex_pos; exact (proj1 C03_sg_nonvacuous)|].
   split; [vm_compute; intuition discriminate|]. split; [reflexivity|]. split; vm_compute; reflexivity.
 Qed.
+
+(* ---- the axis lists behind the tokens: the reduced helpers of BackendsMd.v against the full pydantic model (Meta.v, tied in C07 / C10) ----
+   When update_metadata_axes succeeds on the caller's FULL object, the reduced upd_axes succeeds on its abstraction (any interning I) with,
+   for axis k, the token of (type_k, unit_k, scale_k, scaled_unit_k, offset_k) of the axis that axes_from_lists builds from entry k of
+   every list (C10_axes_from_lists) and no min / max, and gives the abstraction of the full result.  Likewise create_or_update_metadata. *)
+From Geff Require BackendsMdBridge.
+Theorem C03_axis_lists_refine : forall I m ls m', Meta.update_metadata_axes m ls = Ok m' ->
+  exists l, Meta.axes_from_lists (BackendsMdBridge.no_roi ls) = Ok l /\
+            upd_axes (MetaBridge.abs I m) (map (fun a => (Meta.ax_name a, BackendsMdBridge.axis_tok I a)) l) = Ok (MetaBridge.abs I m').
+Proof. exact BackendsMdBridge.upd_axes_refines. Qed.
+Print Assumptions C03_axis_lists_refine.
+
+Theorem C03_cu_metadata_refines : forall I gv m0 d m2 mdtok,
+  Meta.create_or_update_metadata gv (Some m0) (Meta.JBool d) Meta.JNull = Ok m2 ->
+  Meta.md_version m2 = Meta.md_version m0 ->
+  MetaBridge.abs I m2 = cu_metadata (Some (MetaBridge.abs I m0)) d mdtok.
+Proof. exact BackendsMdBridge.cu_metadata_refines. Qed.
+Print Assumptions C03_cu_metadata_refines.
